@@ -4,6 +4,7 @@ package main
 
 import (
 	"fmt"
+	"go/ast"
 	"strings"
 	"go/constant"
 	"go/token"
@@ -123,8 +124,21 @@ func (f *Frame) check(st *State, kind string, pos token.Pos, text string, goal T
 
 func (f *Frame) exec(in ssa.Instruction, st *State) {
 	c := f.ctx
+	if f.top && f.block != nil && len(f.block.At) > 0 {
+		if _, isDbg := in.(*ssa.DebugRef); !isDbg {
+			f.runAtClauses(in, st)
+		}
+	}
 	switch in := in.(type) {
 	case *ssa.DebugRef:
+		if id, ok := in.Expr.(*ast.Ident); ok && f.top {
+			if f.localVals == nil {
+				f.localVals = map[string]ssa.Value{}
+				f.localAddr = map[string]bool{}
+			}
+			f.localVals[id.Name] = in.X
+			f.localAddr[id.Name] = in.IsAddr
+		}
 		return
 	case *ssa.Alloc:
 		f.execAlloc(in, st)
@@ -546,7 +560,11 @@ func (f *Frame) convert(in *ssa.Convert, st *State) []Term {
 		}
 		if fromBasic && fb.Info()&types.IsInteger != 0 {
 			// string(rune): one..four bytes; for values < 0x80 exactly that byte
-			r := c.fresh("runestr", SStr)
+			if !c.declared["runestr"] {
+				c.declared["runestr"] = true
+				c.emit("(declare-fun runestr (Int) Str)")
+			}
+			r := app(SStr, "runestr", x[0])
 			st.assume(c, Implies(And(Ge(x[0], IntLit(0)), Lt(x[0], IntLit(128))), And(Eq(app(SInt, "slen", r), IntLit(1)), Eq(app(SInt, "sat", r, IntLit(0)), x[0]))))
 			st.assume(c, And(Ge(app(SInt, "slen", r), IntLit(1)), Le(app(SInt, "slen", r), IntLit(4))))
 			st.assume(c, Implies(Not(And(Ge(x[0], IntLit(0)), Lt(x[0], IntLit(128)))), Ge(app(SInt, "sat", r, IntLit(0)), IntLit(128))))
@@ -861,5 +879,47 @@ func (f *Frame) runDefers(st *State) {
 		}
 		_ = c
 		f.call(d.instr, &d.instr.Call, st)
+	}
+}
+
+// runAtClauses executes ghost statements anchored before the given instruction.
+func (f *Frame) runAtClauses(in ssa.Instruction, st *State) {
+	c := f.ctx
+	pos := in.Pos()
+	if !pos.IsValid() {
+		return
+	}
+	line := f.posOf(pos).Line
+	for _, ac := range f.block.At {
+		if f.atDone[ac] || ac.AnchorLine == 0 || line != ac.AnchorLine {
+			continue
+		}
+		if f.atDone == nil {
+			f.atDone = map[*AtClause]bool{}
+		}
+		f.atDone[ac] = true
+		args := append([][]Term{}, f.argVals...)
+		ok := true
+		for i, name := range ac.Names {
+			v, has := f.localVals[name]
+			if !has {
+				ok = false
+				break
+			}
+			ts := f.get(v)
+			if f.localAddr[name] {
+				ts = c.load(st, c.shapeOf(ts[0], v.Type()))
+			}
+			want := ac.Fn.Signature.Params().At(len(f.argVals) + i).Type()
+			if len(ts) != len(layout(want)) {
+				ok = false
+				break
+			}
+			args = append(args, ts)
+		}
+		if !ok {
+			panic(unsupportedErr{fmt.Sprintf("contract-target-changed: %s: local variables of `at %q` not available at that point", f.label, ac.Anchor)})
+		}
+		f.inline(ac.Fn, args, nil, st, in)
 	}
 }
